@@ -49,6 +49,11 @@ type Probe struct {
 	CookieEcho bool `json:"cookie_echo,omitempty"`
 	// Silent marks a probe no reply is expected for (short read timeout).
 	Silent bool `json:"silent,omitempty"`
+	// Sequence cases, filled at execution: State = stored AD bit of every
+	// chain hop cached under the probe's CD key just before the probe ('-' =
+	// not cached); Rung = the cache rung that produced the reply.
+	State string `json:"state,omitempty"`
+	Rung  string `json:"rung,omitempty"`
 }
 
 // Case is one (upstream response, probes…) scenario under one configuration.
@@ -65,6 +70,9 @@ type Case struct {
 	UpstreamReqOPT bool    `json:"upstream_req_opt,omitempty"`
 	UpstreamDesc   string  `json:"upstream_desc,omitempty"`
 	Probes         []Probe `json:"probes"`
+	// Sequence cases (seq.go): the alias chain's names and the operations.
+	Chain []string `json:"chain,omitempty"`
+	Steps []Step   `json:"steps,omitempty"`
 }
 
 // ---------------------------------------------------------------------
